@@ -2,6 +2,7 @@ package redisemu
 
 import (
 	"fmt"
+	"math"
 	"strings"
 	"time"
 )
@@ -252,6 +253,11 @@ func fnClientNoEvict(ctx *cmdContext, args map[string]any) (output respValue, er
 
 func fnSelect(ctx *cmdContext, args map[string]any) (output respValue, err error) {
 	index := args["index"].(int64)
+	// validated as the number the client sent: int has 32 bits on some platforms
+	if index < 0 || index > math.MaxInt32 {
+		output.data = respErrorString("ERR DB index is out of range")
+		return
+	}
 	_, valid := ctx.cs.selectDb(int(index), true)
 	if !valid {
 		output.data = respErrorString("ERR DB index is out of range")
